@@ -12,10 +12,35 @@ import (
 	"strconv"
 	"strings"
 	"sync"
+	"sync/atomic"
 	"time"
 )
 
 const Module = "github.com/anacrolix/dht/v2"
+
+// trackedMarker names Tracked in goroutine dumps: a goroutine started as `go simnet.Tracked(f)` counts
+// as a goroutine of the module under test from the moment it is created, so that a barrier taken
+// right after the `go` statement cannot settle before f has even begun to run.
+const trackedMarker = "verifharness/simnet.Tracked"
+
+// Go starts f on a new goroutine that the barrier regards as busy from this very call on: a counter
+// covers the window until the goroutine runs, and from then on its stack carries the Tracked frame.
+func Go(f func()) {
+	starting.Add(1)
+	go Tracked(f)
+}
+
+//go:noinline
+func Tracked(f func()) {
+	starting.Add(-1)
+	f()
+	trackedSink++
+}
+
+var (
+	trackedSink int
+	starting    atomic.Int64
+)
 
 // Out is one datagram the node wrote.
 type Out struct {
@@ -52,7 +77,6 @@ type Conn struct {
 	// DelayHook, if set, overrides the virtual time-out decision.
 	DelayHook func(gid int64, matched bool) time.Duration
 	delays    int
-
 }
 
 func New(local *net.UDPAddr) *Conn {
@@ -232,7 +256,7 @@ func (c *Conn) ModuleGoroutines() []GInfo {
 	me := GoID()
 	var ret []GInfo
 	for _, blk := range strings.Split(string(buf[:n]), "\n\n") {
-		if !strings.Contains(blk, Module) {
+		if !strings.Contains(blk, Module) && !strings.Contains(blk, trackedMarker) {
 			continue
 		}
 		if !strings.HasPrefix(blk, "goroutine ") {
@@ -264,6 +288,9 @@ func (c *Conn) ModuleGoroutines() []GInfo {
 }
 
 func busy(gs []GInfo) *GInfo {
+	if starting.Load() > 0 {
+		return &GInfo{State: "starting", Top: "a goroutine started with simnet.Go has not begun to run"}
+	}
 	for i := range gs {
 		if !blockedStates[gs[i].State] {
 			return &gs[i]
